@@ -152,6 +152,12 @@ func (an *fnAn) joinState(a, b tstate) tstate {
 	}
 	for k, va := range a {
 		vb, ok := b[k]
+		if k == "LAST" {
+			if ok && va.Src == vb.Src {
+				n[k] = va
+			}
+			continue
+		}
 		if ok {
 			n[k] = joinAV(va, vb)
 		} else if strings.HasPrefix(k, "V:") {
@@ -1574,6 +1580,7 @@ func (a *fnAn) seed(st tstate, key string, pointee types.Type, fld *types.Var, e
 	src := a.srcDesc(callee, in)
 	if tr := typeRange(pointee, a.sizes); tr != nil {
 		st["L:"+key] = AV{T: tr, Src: src}
+		st["LAST"] = AV{Src: key}
 		if a.t.collect {
 			a.t.Sources[core.FnName(a.fn)]++
 		}
@@ -1904,6 +1911,22 @@ func (a *fnAn) callSinks(in ssa.Instruction, cc *ssa.CallCommon, name string, st
 		a.sinkNonNeg(in, "repeat", "count", arg(1), st)
 	case "bytes.(Buffer).Grow", "strings.(Builder).Grow":
 		a.sinkNonNeg(in, "grow", "n", arg(1), st)
+	case "compress/zlib.NewReader", "compress/zlib.NewReaderDict", "compress/flate.NewReader", "compress/gzip.NewReader":
+		// start of inflation: the declared size is the most recently decoded integer
+		if last, ok := st["LAST"]; ok {
+			if av, ok := st["L:"+last.Src]; ok && av.T != nil {
+				a.addSink(in, "inflate(declared)", av, true, "declared uncompressed size is bounded before inflating", "declared size "+av.String())
+			}
+		}
+	case "bytes.(Buffer).Next", "bytes.(Buffer).Truncate":
+		// panics on a negative argument; required for every value, not only peer-derived ones
+		if v := arg(1); v != nil {
+			av := a.eval(v, st)
+			all := av.all()
+			if all != nil && !av.PExt {
+				a.addSink(in, "next(n)", av, nonNeg(all), "argument of "+name[strings.LastIndex(name, ".")+1:]+" >= 0 for every value that can reach it", "n "+av.String())
+			}
+		}
 	case "reflect.(Value).Index":
 		if v := arg(1); v != nil {
 			av := a.eval(v, st)
